@@ -163,6 +163,13 @@ def c16_scenarios(tier):
                 if (tier == "quick" and ncmd == 2 and n not in (2, 5, 21)) or (n > 48 and (ncmd == 2 or pos not in ("only", "middle"))):
                     continue
                 out.append(("c16", {"n": n, "pos": pos, "ncmd": ncmd}, {}))
+    # many tasks before the group under test: wide groups in sequence, and wide groups under several commands
+    chains = [[30, 30, 10], [40, 40], [20, 20, 20, 20]] if tier == "quick" else [[30, 30, 10], [40, 40], [20, 20, 20, 20], [48, 48, 48], [10] * 10, [60, 60, 2]]
+    for w in chains:
+        for ncmd in (1, 2):
+            out.append(("c16", {"n": max(w), "pos": "chain", "ncmd": ncmd, "widths": w}, {}))
+    for n in ([40] if tier == "quick" else [24, 40, 48]):
+        out.append(("c16", {"n": n, "pos": "only", "ncmd": 2}, {}))
     return out
 
 
@@ -181,9 +188,24 @@ def c16_build(n, pos):
     return ts, [g["path"] for g in group]
 
 
+def c16_chain(widths):
+    """consecutive groups of the given widths: every member of group k uses the first member of group k-1"""
+    ts = []
+    for k, w in enumerate(widths):
+        for i in range(w):
+            t = {"path": "w%d_%02d" % (k, i)}
+            if k > 0:
+                t["uses"] = ["w%d_00" % (k - 1)]
+            ts.append(t)
+    return ts
+
+
 def c16_task(desc):
     n, pos, ncmd = desc["n"], desc["pos"], desc["ncmd"]
-    ts, group = c16_build(n, pos)
+    if pos == "chain":
+        ts, group = c16_chain(desc["widths"]), []
+    else:
+        ts, group = c16_build(n, pos)
     cmds = ["build", "test"][:ncmd]
     sn = sched.Scenario("group%d/%s/%dcmd" % (n, pos, ncmd), ts, all_x(ts, cmds), ["-c"] + cmds, cmds)
     s = sc.Scratch("c16")
@@ -211,7 +233,7 @@ def c16_task(desc):
                         elif len(g) > 1:
                             viol.append(("group-member-not-started", "group of %d: %d member(s) not started while the others are still running, e.g. %s" % (len(g), len(missing), missing[:3])))
                         break
-                    if len(g) == n:
+                    if len(g) == n or (pos == "chain" and len(g) > 1):
                         rendezvous += 1
                     for ch in list(c.waiting()):
                         c.release(ch, 0)
@@ -230,7 +252,7 @@ def c16_task(desc):
                     succ = sum(1 for res in doc["results"] for grp in res["target_groups"] for v in grp.values() if v["status"] == "success")
                     if succ != len(ts) * ncmd:
                         viol.append(("wrong-success-count", "%d success entries, expected %d" % (succ, len(ts) * ncmd)))
-            return {"evaluations": 1, "nontrivial": 1 if rendezvous == ncmd else 0, "blocked": 1 if blocked else 0,
+            return {"evaluations": 1, "nontrivial": 1 if rendezvous >= ncmd else 0, "blocked": 1 if blocked else 0,
                     "violations": [{"sig": sig, "detail": d, "rank": n, "case": {"c16": desc}} for sig, d in viol],
                     "sample": {"group_size": n, "position": pos, "commands": ncmd, "groups": [len(g) for g in groups]}}
         finally:
@@ -716,7 +738,7 @@ def run_tasks(tasks, workers=None):
 
 RULES = {
     "C04": "(thorough adds every labelled DAG on 2-4 nodes, single command, every release order) scenarios: 12 dependency shapes x selection modes (all targets / changed subset after a checkpoint / -t with --deps) x command lists (build; build test; sequence(build,test) then lint); every child blocks until released; stateless DFS over every release order (single-command scenarios: all orders; multi-command: all schedules with <= max_dev non-default choices) plus the eager deviation for every single child; monitor: at each arrival every dependency in the run and every executable of every earlier command has exited; evaluations = executions (complete runs); non-trivial = scenarios with more than one schedule",
-    "C16": "group sizes x position of the group in the plan (only, first, middle, last) x 1-2 commands; no member is released before every member of the group has arrived (each member waits for all the others to start); oracle: every member arrives, then the run exits 0 with all success entries; non-trivial = scenarios where the full group rendezvoused for every command",
+    "C16": "(plus chains of wide groups, e.g. 30/30/10 and 40/40 under 1-2 commands, so that many tasks precede the group under test) group sizes x position of the group in the plan (only, first, middle, last) x 1-2 commands; no member is released before every member of the group has arrived (each member waits for all the others to start); oracle: every member arrives, then the run exits 0 with all success entries; non-trivial = scenarios where the full group rendezvoused for every command",
     "C06": "part B (internal orderings): plans with a group of n in {1,2,3} (thorough 4) followed by a dependent target, all commands succeed, points group.pre_shutdown:<i> and compressor.gone:<x> active; the free run, every single constraint `compressor.gone:x before group.pre_shutdown:i` per group and pairs of constraints (hit b is held until hit a was seen); oracle exit 0, failed=false, all success, stored logs complete. part A: plans = dependency shapes with two commands; fault assignments: every single fault (exit codes, missing x bit, undefined with/without --fail-on-undefined) at every (command,target) position, pairs of faults within a command, and no fault; for each every release order of the groups (<=3 members); oracle: failed flag, exit status, skipped/not-started later groups and commands, status truthfulness; evaluations = executions",
     "C05": "dependency shapes x command-definition patterns x command lists x selection modes (no targets without checkpoint; checkpoint + every changed subset; -t S; -t S --deps) in trace mode; oracle: result document pairs == commands x selected targets exactly once, groups equal analyze --target-groups taken immediately before (or singletons / a valid layering of the closure), executable starts at most once, exactly once iff defined and nothing failed earlier, never when undefined; evaluations = runs",
 }
